@@ -83,6 +83,28 @@ theorem qinv_addReactionsCore {k : K} (h : QInv k) (p : Nat) (fr rr : Reaction) 
       · exact qinv_congr h rfl rfl rfl rfl
     · intro s; rfl
 
+theorem qinv_addReactions {k : K} (h : QInv k) (p : Nat) (cap : Option Cap) (f g : Option Fn) :
+    QInv (addReactions k p cap f g) := by
+  simp only [addReactions]
+  split
+  · apply qinv_markHandled
+    apply qinv_addReactionsCore
+    exact qinv_congr h rfl rfl rfl rfl
+  · exact h
+
+theorem qinv_popJobQ {k : K} (h : QInv k) : QInv (popJobQ k) := by
+  unfold popJobQ
+  split
+  · exact h
+  · rename_i j rest hc
+    have h' : QInv { k with jobs := rest, ran := k.ran ++ [j] } := by
+      constructor
+      · have := h.fifo; rw [hc] at this; simpa [List.append_assoc] using this
+      · exact h.sids
+    split
+    · exact h'
+    · exact qinv_congr h' rfl rfl rfl rfl
+
 theorem qinv_applyOp {k : K} (h : QInv k) (op : KOp) : QInv (applyOp op k) := by
   cases op with
   | newCap => exact qinv_congr h rfl rfl rfl rfl
@@ -109,24 +131,26 @@ theorem qinv_applyOp {k : K} (h : QInv k) (op : KOp) : QInv (applyOp op k) := by
       · apply qinv_rejectP
         exact qinv_congr h rfl rfl rfl rfl
   | addReactions p cap f g =>
-    simp only [applyOp, addReactions]
+    simp only [applyOp]
     split
-    · apply qinv_markHandled
-      apply qinv_addReactionsCore
-      exact qinv_congr h rfl rfl rfl rfl
+    · exact qinv_addReactions h p cap f g
     · exact h
   | popJob =>
     simp only [applyOp, popJob]
     split
     · exact h
-    · rename_i j rest hc
-      have h' : QInv { k with jobs := rest, ran := k.ran ++ [j] } := by
-        constructor
-        · have := h.fifo; rw [hc] at this; simpa [List.append_assoc] using this
-        · exact h.sids
-      split
-      · exact h'
-      · exact qinv_congr h' rfl rfl rfl rfl
+    · exact qinv_congr (qinv_popJobQ h) rfl rfl rfl rfl
+  | asyncStart => exact qinv_congr h rfl rfl rfl rfl
+  | await ar p =>
+    simp only [applyOp, awaitOp]
+    split
+    · exact qinv_congr (qinv_addReactions h p none _ _) rfl rfl rfl rfl
+    · exact h
+  | asyncDone ar =>
+    simp only [applyOp, asyncDone]
+    split
+    · exact qinv_congr h rfl rfl rfl rfl
+    · exact h
   | leaveAbrupt =>
     simp only [applyOp, leaveAbrupt]
     constructor
